@@ -23,6 +23,8 @@ type Env struct {
 	// (two per generic: the first over a type without references, the second over one that holds references).
 	Generics     []*GenericDecl
 	GenericInsts []*Decl
+	// SelfSlice is the declaration type NR0 []NR0, when the environment has one
+	SelfSlice *Decl
 	// Twins: two structs called Twin in two imported packages of the same name (see DrawEnv)
 	Twins []*Decl
 	// Aliases are alias declarations of the subject package (type A0 = T) over declarations that precede the
@@ -219,6 +221,13 @@ func DrawEnv(t *rapid.T, opt EnvOpt) *Env {
 			u = SliceOf(SliceOf(e.drawLeaf(t, false)))
 		}
 		e.NamedComp = append(e.NamedComp, &Decl{Name: fmt.Sprintf("N%d", i), Under: u})
+	}
+	if !opt.NoLists && rapid.IntRange(0, 2).Draw(t, "selfslice") == 0 {
+		// a named slice of itself (type NR0 []NR0): a tree without payload; []NR0 and NR0 are mutually assignable
+		d := &Decl{Name: "NR0", Recursive: true}
+		d.Under = SliceOf(NamedT(d))
+		e.NamedComp = append(e.NamedComp, d)
+		e.SelfSlice = d
 	}
 	// generic structs instantiated over what exists so far
 	if !opt.NoGenerics && rapid.IntRange(0, 2).Draw(t, "generics") == 0 {
